@@ -86,7 +86,16 @@ KINDS = ("object", "np1", "np2", "flat", "jagged", "optrec", "record")
 
 @st.composite
 def _step(draw):
-    kind = draw(st.sampled_from(("op", "op", "op", "singular", "raise", "construct")))
+    kind = draw(st.sampled_from(("op", "op", "op", "singular", "raise", "construct", "kernel_raise", "kernel_raise")))
+    if kind == "kernel_raise":
+        # the exception is raised INSIDE the dispatched computation (unbroadcastable shapes, mismatching list lengths,
+        # overflowing Python floats, a non-numeric scalar argument), not by the argument checks before it
+        name = draw(st.sampled_from(_OPNAMES))
+        op = OPS[name]
+        da = draw(st.sampled_from(op.self_dims))
+        db = draw(st.sampled_from(op.other_dims(da)))
+        return {"kind": "kernel_raise", "op": name, "da": da, "db": db, "elem": draw(opcheck.case_strategy(op, db, "f64", None)),
+                "h": draw(st.integers(0, 2**30)), "how": draw(st.sampled_from(("shape", "lists", "overflow", "badscalar")))}
     if kind in ("op", "singular"):
         name = draw(st.sampled_from(_OPNAMES))
         op = OPS[name]
@@ -170,10 +179,63 @@ def _singular_elem(e, which, da, db):
     return e
 
 
+def _kernel_raise(step):
+    op = OPS[step["op"]]
+    da, db, h, how = step["da"], step["db"], step["h"], step["how"]
+    e = step["elem"]
+    SA = R.SYSTEMS[da]
+    sa = SA[(h >> 4) % len(SA)]
+    sb = R.SYSTEMS[db][(h >> 10) % len(R.SYSTEMS[db])] if db else None
+    mom = op.momentum
+    s = dict(e["s"])
+
+    def rows(system, c, d, n):
+        r = lattice.rows_for(system, [c] * n, d)
+        return r
+
+    try:
+        if how == "overflow":
+            big = [v * 1e200 for v in e["a"]["c"]]
+            ra = lattice.rows_for(sa, [big], da)
+            if ra is None or any(abs(x) == float("inf") for x in ra[0]):
+                return ("skip", "overflow_not_representable")
+            A = lattice.make_operand("object", sa, ra, mom)
+            B = lattice.make_operand("object", sb, lattice.rows_for(sb, [[v * 1e200 for v in e["b"]["c"]]], db) or [tuple([1.0] * db)], False) if db else None
+        else:
+            ra = rows(sa, e["a"]["c"], da, 3)
+            rb = rows(sb, e["b"]["c"], db, 2) if db else None
+            if ra is None or (db and rb is None):
+                return ("skip", "operand_not_representable")
+            if how == "lists":
+                A = ak.unflatten(build.ak_flat(sa, ra, mom), [2, 1])
+                B = ak.unflatten(build.ak_flat(sb, rb + rb[:1], False), [1, 2]) if db else None
+            else:
+                A = build.np_array(sa, ra, mom)
+                B = build.np_array(sb, rb, False) if db else None
+            if how == "badscalar" or not db:
+                for name in op.scalars:
+                    k = __import__("vcheck.catalog", fromlist=["SCALAR_KIND"]).SCALAR_KIND[name]
+                    if k.startswith("matrix"):
+                        s[name] = {"xx": 1.0}
+                    elif k == "quat":
+                        s[name] = [1.0, "j", 0.0, 0.0]
+                    elif k != "order":
+                        s[name] = "not-a-number" if how == "badscalar" else numpy.arange(5.0)
+        r = op.call(A, B, s)
+        try:
+            return ("ok", c14._bits(r))
+        except Exception:  # noqa: BLE001
+            return ("ok", repr(type(r)))
+    except Exception as ex:  # noqa: BLE001
+        return ("exc", type(ex).__name__)
+
+
 def run_step(step, registered=False):
     """execute one step; returns ("ok"|"exc"|"skip", bits or exception name)"""
     kind = step["kind"]
     h = step["h"]
+    if kind == "kernel_raise":
+        return _kernel_raise(step)
     if kind in ("op", "singular"):
         op = OPS[step["op"]]
         da, db = step["da"], step["db"]
@@ -291,7 +353,7 @@ def _history(cell, case, ctx):
                     ctx.fail("state_changed", f"step {i} {step['kind']}:{name} ({outcome[0]} {str(outcome[1])[:60]}) under seterr={cfg['err']} "
                              f"warnings={cfg['warn']} changed global state: {d}", op=str(name), variant=step["kind"], backend=be)
                     return
-                if outcome[0] == "exc" or step["kind"] == "singular":
+                if outcome[0] == "exc" or step["kind"] in ("singular", "kernel_raise"):
                     if nondefault:
                         ctx.nontrivial(key=[cell["id"], i, step.get("op") or step.get("which"), step["h"], cfg], sample={
                             "step": {k: v for k, v in step.items() if k != "elem"}, "outcome": outcome[0], "config": cfg})
